@@ -327,6 +327,16 @@ def run_program(program):
                     back.response and back.response.status_code, back.metadata.get("response_injected"))))
             if behaviour == "set_metadata" and (back.metadata.get("can_stream") is not False or back.metadata.get("addon_note") is None):
                 out.append(("state:metadata-lost", "metadata set by the addon did not survive"))
+            if kind in ("region_cap", "seed", "eq", "uploader_temp", "asset_wrapper", "proxy_only") and run.expect_cap is None and run.sess is not None \
+                    and behaviour != "take_close_session_release":
+                # what the main process will see when the flow comes in again: the very session and region it belonged to
+                hf = HippoHTTPFlow.from_state(copy.deepcopy(state), w.sm)
+                cd = hf.cap_data
+                got_r = cd.region() if cd and cd.region else None
+                got_s = cd.session() if cd and cd.session else None
+                if got_r is not run.region or got_s is not run.sess:
+                    out.append(("state:owner-objects", "%s flow rehydrates to region %r / session %r, it belongs to %r / %r" % (
+                        kind, got_r, got_s, run.region, run.sess)))
             ser = back.metadata.get("cap_data_ser")
             want = {"region_cap": "FetchInventory2", "seed": "Seed", "eq": "EventQueueGet", "uploader_temp": "UploadBakedTextureUploader",
                     "asset_plain": "ViewerAsset", "asset_wrapper": "GetTextureProxyWrapper", "proxy_only": "HippoOnly", "login": "LoginRequest",
